@@ -53,10 +53,10 @@ Section Sigma.
 
   Definition keyi_verify (key : Z) (good1 : bool) (m1 : Z) (c : Z) (good2 : bool) (m2 : Z) : verdict :=
     if negb good1 then Reject
-    else if negb (check_element G m1) then Reject
+    else if negb (check_element G m1) || negb (check_element G key) then Reject
     else if negb good2 then Reject
     else if q <=? Z.abs m2 then Reject
-    else match fpowm_alias tg g m2 p with     (* result variable aliases the exponent *)
+    else match fpowm tg g m2 p with
          | None => Throw
          | Some a =>
            match mpz_powm key c p with
@@ -154,6 +154,7 @@ Section Sigma.
   Definition or_verify (y1 y2 g1 g2 : Z) (good : bool) (c1 c2 r1 r2 : Z) : verdict :=
     if negb good then Reject
     else if (q <=? Z.abs r1) || (q <=? Z.abs r2) then Reject
+    else if (q <=? Z.abs c1) || (q <=? Z.abs c2) then Reject
     else match mpz_powm y1 c1 p with None => Throw | Some a1 =>
          match mpz_powm g1 r1 p with None => Throw | Some b1 =>
          let t1 := (a1 * b1) mod p in
